@@ -56,7 +56,14 @@ var plans = map[string]*plan{
 		Rule:   "stream harness: content of sizes 0,1,2,100,1023..1025,4096,65515..65517,131031..131033,300000,2.5MB (rare) x binary/text/CRLF/pointer-look-alike x scripted chunkings (as C08) for clean, then the produced pointer smudged back through a second scripted chunking; working-tree file absent/same/shorter/longer/pointer. Every case is non-trivial; distinct = distinct choice trace.",
 		Real:   []string{"commands.clean / commands.smudge (via tagged export)", "lfs.GitFilter.Clean/Smudge, lfs.DecodeFrom, pointer codec", "tools.CopyWithCallback / Spool", "real object store on disk"},
 		Stub:   []string{"the byte source and sink (scripted chunked reader, in-memory writer)"},
-		Assume: []string{"pointer extensions and the merge driver are not covered by this check (stated, not silently skipped)"},
+		Assume: []string{"part 1 covers the one-shot filter bodies in process; part 2 the same round trip through Git itself"},
+		Extra: &plan{
+			ID: "C01", Engine: "B", Level: "exploration",
+			Stages: []stage{{"C01.git", 120, 4000}},
+			Rule:   "end-to-end through the real git and git-lfs: 1-4 payloads (sizes 0,1,100,1023..1025,4096,65515..65517,131032,300000; binary/text/CRLF/pointer-look-alike) staged by git add or by `git hash-object -w --path` from stdin while the working-tree file at that path is absent/shorter/longer/a previous pointer, long-running filter-process or one-shot filters, with or without a reversible pointer extension (rot13 via lfs.extension.*); the index blob must be the pointer naming exactly what is stored and `git checkout` must return the original bytes; stash/pop round trip; a text file stored in LFS merged through `git lfs merge-driver` (merged size smaller/larger than either side) judged against `git merge-file` on the raw contents.",
+			Real:   realB, Stub: []string{"no server needed (all objects local)"},
+			Assume: []string{"expected merge results come from git merge-file on the raw contents"},
+		},
 	},
 	"C10": {
 		ID: "C10", Engine: "A", Level: "exploration",
